@@ -168,6 +168,7 @@ func runCCrash(r *verifsim.Run) {
 		}
 	}
 	res := execSched(r, sc, opt)
+	r.Logf("steps=%d switches=%d sig=%016x crashes=%d observations=%d final=%v", res.Steps, res.Switches, res.Sig, nCrash, nObs, res.Final)
 	r.Count("steps", res.Steps)
 	r.Count("observations", nObs)
 	r.Count("crash_points", nCrash)
